@@ -8,11 +8,16 @@ CONFIG = {
                 "metadata), snapshot at any index + replay of the suffix = the whole log, a client cache = the leader's value; a snapshot or published value taken at any point "
                 "of any schedule still reads, after any further commands, the value at that point (heap model with aliasing for Clone / Snapshot / in-place Term+Index stamps and "
                 "node-list writes; every other slice/map a *Data reaches is copied by Clone - all 12 fields re-read from the source - and a copied slice is proved unaffected by append/remove/assign through the copy); for EVERY byte string, validateCommand accepting it implies storeFSM.Apply does not panic on it (type and extension tables re-read "
-                "from the source each run); store.remove's reset decision (re-read from the source) never wipes the store of a node that removes ANOTHER raft peer. "
+                "from the source each run); store.remove's reset decision (re-read from the source) never wipes the store of a node that removes ANOTHER raft peer; "
+                "log snapshotting under write faults: storeFSMSnapshot.Persist (statement by statement) and the Cancel/Close of raft's takeSnapshot around it, against raft's FileSnapshotSink "
+                "as a state machine (per Write call ok / k bytes then error, finalisation in Close ok / error, the first of Close and Cancel decides): for EVERY marshal result, EVERY open sink and "
+                "EVERY fault oracle a sink that ends up committed holds exactly the marshalled image and Persist returned nil, an error of Persist leaves nothing committed, without a fault "
+                "the image is committed, and (with the round-trip theorem) restoring ANY committed snapshot yields the snapshotted value. "
                 "MONITOR (observed, not proved; raft membership is outside the model): in both tiers four membership scenarios run on real meta services (join 1->2, /remove of the "
                 "follower of a 2-node and of a 3-node cluster, /leave + re-join, with acknowledged commands before and after): no surviving node's index goes backwards, cluster id kept, "
                 "every acknowledged database present, survivors equal to the model applied to the acknowledged log. The same model and an executable spec are evaluated in Coq against the real storeFSM (Snapshot, further commands, Persist, Restore "
-                "into a fresh store, replay) and the real validateCommand/Apply on designed + generated inputs.",
+                "into a fresh store, replay), the real Persist against fault-injecting sinks (in memory and a real raft.FileSnapshotStore in a temp directory: what List()/Open() give a restart) "
+                "and the real validateCommand/Apply on designed + generated inputs.",
         "note": "Trusts Coq kernel, genconsts translator, the harness and its canonical dump; RaftLog (raft's guarantees) is an assumption, validated only by the thorough-tier soak; "
                 "protobuf wire encoding = identity on the generated structs (Section hypothesis); privilege-map iteration order not modelled (compared as sets); "
                 "everything C06 trusts (sort stability, excluded legacy commands, shared RetentionAutoCreate).",
@@ -27,9 +32,12 @@ CONFIG = {
     "search_rounds": 1,
     "search_boost": 1,
     "bytes_keys": ["b"],
-    "extra_proof_files": ["ProofsMarshal", "ProofsWf", "ProofsHeap", "ProofsSlice"],
+    "extra_proof_files": ["ProofsMarshal", "ProofsWf", "ProofsHeap", "ProofsSlice", "ProofsPersist"],
     "harness_timeout": {"quick": 600, "thorough": 3000},
-    "rule": "membership monitor (4 fixed scenarios on real meta services, run concurrently, both tiers; thorough: a second set with more commands); corpus first (the probe schedules of the five repaired defects: node-list aliasing through Clone for a published value and for a pending snapshot, Subscriptions array shared by "
+    "rule": "snapshot attempts under planted faults (kind persistfault): designed = 4 states (empty store, small, rich with deleted/truncated groups + users with privileges, image beyond the "
+            "sink's 4096-byte buffer) x {in-memory sink, real FileSnapshotStore} x {Close ok, Close fails} x write fault after {none, 0, 1, len/2, len-1, len, len+1} bytes, some with a prior good "
+            "snapshot in the store and with commands between Snapshot() and Persist; generated = n/4 random command logs with a random fault (25% on the file store); non-trivial = a fault fired; "
+            "membership monitor (4 fixed scenarios on real meta services, run concurrently, both tiers; thorough: a second set with more commands); corpus first (the probe schedules of the five repaired defects: node-list aliasing through Clone for a published value and for a pending snapshot, Subscriptions array shared by "
             "RetentionPolicyInfo.clone (drop of a non-last subscription; append after a shrink), Term/Index restamp of a pending "
             "snapshot by a rejected command, group truncated at the Unix epoch, every rejected envelope shape; the former finding repaired by 78b5206: shard group for a timestamp next to MinInt64), then "
             "designed raw envelopes (every command type x {valid, no extension, wrong extension, own+other extension, empty body, body cut, body garbage, extension as varint, truncated, "
@@ -43,6 +51,10 @@ CONFIG = {
         "(proto.Unmarshal ok, GetType, HasExtension/GetExtension per registered extension) is read off the real library through services/meta/verif_export_c07.go and given to the model",
         "C07: the harness drives storeFSM.Snapshot/Persist/Restore, store.snapshot(), validateCommand through services/meta/verif_export_c07.go (in-memory raft.SnapshotSink); Persist is called from the "
         "same goroutine (the interleaving with Apply is sequential: data races during a concurrent Persist are outside the model)",
+        "C07: persistfault cases: faults are planted by a wrapper sink of the harness (Write forwards the first k bytes and returns an error; a failing Close removes the temporary snapshot like "
+        "FileSnapshotSink.Close does when finalize() fails); 'image' is what Persist offered to Write in that very call (MarshalBinary is not byte-deterministic: privilege maps); commitment on the file store "
+        "is FileSnapshotStore.List(), the bytes FileSnapshotStore.Open() (CRC-checked), on the in-memory sink a flag set by Close; a Close failing AFTER the rename (directory fsync, reaping) and an error of "
+        "MarshalBinary are in the model's oracle but cannot be provoked on the real code; real disk faults below the sink interface are not exercised",
         "C07: dumps as in C06 (groups by ID, privileges by database, exact unix nanoseconds) plus the (group ID, DeletedAt) pairs; Go's append growth only matters for the unrepaired shallow Clone",
         "C07: membership scenarios and the thorough soak start real meta.Service instances on loopback ports with temp directories; a scenario that does not settle in time without any node "
         "regressing (index backwards / cluster id changed) is counted inconclusive and emits nothing; commands are POSTed as raw protobuf to /execute, membership through /join, /remove, /leave",
@@ -50,8 +62,8 @@ CONFIG = {
         "'validateCommand checks extension' are re-read from the source by genconsts each run; the heap machine keeps everything but the two node lists by value on the strength of that fact and of the differential run",
     ],
     "monitors": ["membership (store.join/remove/leave/reset over real hashicorp/raft): OBSERVED on 4 fixed scenarios per run, NOT proved; only store.remove's reset decision has a theorem (remove_keeps_metadata)"],
-    "modelled": "services/meta/data.go marshal/unmarshal of Data and every nested type, Clone; store_fsm.go Snapshot/Persist/Restore and the head of Apply (unmarshal, type switch, GetExtension + "
-                "type assertion); handler.go validateCommand; store.snapshot(). store.go remove: only the reset decision. NOT modelled: raft membership (join/leave/remove/reset beyond that decision: monitored), raft_state.go, client.go long polling/retry, service.go, the HTTP layer, hashicorp/raft, boltdb",
+    "modelled": "services/meta/data.go marshal/unmarshal of Data and every nested type, Clone; store_fsm.go Snapshot/Persist (incl. its sink calls and error paths)/Restore and the head of Apply (unmarshal, type switch, GetExtension + "
+                "type assertion); handler.go validateCommand; store.snapshot(). store.go remove: only the reset decision. hashicorp/raft: only the SnapshotSink protocol of FileSnapshotSink and the three statements of takeSnapshot around Persist. NOT modelled: raft membership (join/leave/remove/reset beyond that decision: monitored), raft_state.go, client.go long polling/retry, service.go, the HTTP layer, hashicorp/raft, boltdb",
     "assumptions": ["RaftLog: hashicorp/raft delivers to every replica a prefix of one committed log and only ever installs images persisted from a state at the same log position",
                     "protobuf decode(encode(x)) = x on the generated structs",
                     "wall-clock deletion stamps are not the Unix epoch (time.Now().UnixNano() != 0)",
